@@ -2,7 +2,7 @@
    the node bound at every instant (C06), wedged states refuse to act and rows are never lost (C11),
    every row has a cause (C12). *)
 From Coq Require Import List ZArith NArith Bool Arith Lia Permutation.
-From Jade Require Import Base System SystemMonitors SystemProofs SystemInv SystemOrder SystemLimits.
+From Jade Require Import Base System SystemMonitors SystemProofs SystemInv SystemOrder SystemLimits SystemHooks SystemLaunch.
 Import ListNotations.
 Open Scope N_scope.
 Set Default Timeout 300.
